@@ -504,7 +504,13 @@ ViolC15(g, prev, r, g2) ==
       v5 == g.ver = "v50"
   IN
   (IF ~CancelOk(a0, r.out, 1) THEN {"C15a-cancel-of-unarmed-timer"} ELSE {})
-  \cup (IF ~r.panic /\ g2.conn = "disc" /\ g2.armed # {} THEN {"C15b-armed-while-disconnected"} ELSE {})
+  \* "after the transport is reported closed or a DISCONNECT is sent no timer remains armed, nor does any LOCAL call arm one
+  \* while disconnected" (a frame that still arrives between the DISCONNECT and the close is not a local call)
+  \cup (IF ~r.panic /\ g2.conn = "disc" /\ g2.armed # {} /\ (Op(r) \in {"closed", "crash"} \/ DisconnectSent(r))
+        THEN {"C15b-armed-while-disconnected"} ELSE {})
+  \cup (IF ~r.panic /\ g2.conn = "disc" /\ Op(r) \notin {"recv", "garbage", "new"}
+           /\ \E i \in DOMAIN r.out : r.out[i].ev = "timer_reset"
+        THEN {"C15b-local-call-arms-while-disconnected"} ELSE {})
   \cup (IF ~r.panic /\ g2.client /\ g2.conn = "connected" /\ Sends(r.out) # <<>> /\ iv > 0 /\ ~HasReset(r.out, "pingreq_send", iv)
         THEN {"C15d-pingreq-timer-not-rearmed"} ELSE {})
   \cup (IF ~r.panic /\ g2.client /\ g2.conn \in {"connecting", "connected"} /\
